@@ -156,8 +156,10 @@ def _run(ctx, libdir, rebound, ft, E, rng, tmpd):
     open_meta = []      # (scenario, append index a, cut k, n_complete)
     resume_jobs = []; resume_meta = []
     r1_jobs = []; r1_meta = []
+    rr_jobs = []; rr_meta = []
     ref_hash = {}
     ref_relaxed = {}
+    ref_noseed = {}
     uninit = []
     first_files = {}
     trace_ok = True; trace_detail = []
@@ -172,11 +174,11 @@ def _run(ctx, libdir, rebound, ft, E, rng, tmpd):
         filesm = [L.mask_padding(f, E, 64, True) for f in files]
         # reference: snapshots of the uninterrupted archive
         pth = os.path.join(tmpd, "ref%d.bin" % si); open(pth, "wb").write(files[-1])
-        rr = c06.run_jobs(libdir, [[{"kind": "open", "file": pth, "load": True}]])[0]
+        rr = c06.run_jobs(libdir, [[{"kind": "open", "file": pth, "load": True, "noseed": True}]])[0]
         if not isinstance(rr, list) or "snap_hashes" not in rr[0]:
             ctx.violation("open-intact", {"scenario": sc, "result": str(rr)[:400]}, True, "property=C07 the uninterrupted archive cannot be opened")
             continue
-        ref_hash[si] = rr[0]["snap_hashes"]; ref_index = rr[0]["index"]; ref_relaxed[si] = rr[0]["snap_hashes_relaxed"]
+        ref_hash[si] = rr[0]["snap_hashes"]; ref_index = rr[0]["index"]; ref_relaxed[si] = rr[0]["snap_hashes_relaxed"]; ref_noseed[si] = rr[0].get("snap_hashes_noseed")
         first_files[si] = files[0]
         # ---- (a) strace tie
         if len(sessions) != len(files):
@@ -239,7 +241,11 @@ def _run(ctx, libdir, rebound, ft, E, rng, tmpd):
                     r1_jobs.append({"kind": "resume1", "file": p, "ops": list(sc["segs"][a])}); r1_meta.append((si, a, k))
         # first write: dense sample of cuts
         f0 = files[0]
-        cuts0 = sorted(set(list(range(0, 20)) + list(range(len(f0) - 40, len(f0) + 1)) + rng.sample(range(len(f0)), ctx.scale(40, 600))))
+        for k in sorted(set([0, 1, 16, 63, 64, 65, len(f0) // 2, len(f0) - 29, len(f0) - 13, len(f0) - 12, len(f0) - 7, len(f0) - 1])):
+            p = os.path.join(tmpd, "rr_%d_%d.bin" % (si, k))
+            open(p, "wb").write(f0[:k])
+            rr_jobs.append({"kind": "rerun", "file": p, "spec": sc["spec"], "segs": sc["segs"]}); rr_meta.append((si, k, len(f0)))
+        cuts0 = sorted(set(list(range(0, 20)) + [63, 64, 65, 79, 80, 81] + list(range(len(f0) - 40, len(f0) + 1)) + rng.sample(range(len(f0)), ctx.scale(40, 600))))
         for k in cuts0:
             p = os.path.join(tmpd, "img_%d_0_%d.bin" % (si, k))
             open(p, "wb").write(f0[:k])
@@ -272,6 +278,31 @@ def _run(ctx, libdir, rebound, ft, E, rng, tmpd):
                     r1 = c06.run_jobs(libdir, [[job]], timeout=60)[0]
                     res_res.append(r1[0] if isinstance(r1, list) else {"died": r1[0], "stderr": r1[1]})
         coq_out = fut_coq.result()
+
+    # ---- crash during the FIRST write (zero-length file, cut inside the header, inside the fields, inside the 12-byte trailer):
+    #      restart from snapshot 0 if it is exposed, else run again from the start with the same file name
+    rrres = c06.run_jobs(libdir, [rr_jobs[i:i + 4] for i in range(0, len(rr_jobs), 4)], timeout=200)
+    rrres = [x for b in rrres for x in (b if isinstance(b, list) else [{"died": str(b)}] * 4)]
+    rrbad = []; leak = []
+    for (si, k, n0), r in zip(rr_meta, rrres):
+        ctx.case(key=("rerun", si, k), sample={"first_write_cut": k, "of": n0, "scenario": si, "restarted_from_snapshot0": r.get("restarted_from_snapshot0")} if len(ctx.samples) < 6 else None)
+        same = (r.get("snap_hashes") == ref_hash.get(si)) if r.get("restarted_from_snapshot0") else (r.get("snap_hashes_noseed") == ref_noseed.get(si))
+        if si in ref_hash and not same:
+            rrbad.append((si, k, n0, r))
+        if r.get("fd_growth", 0) > 0:
+            leak.append((si, k, n0, r))
+    if rrbad:
+        si, k, n0, r = rrbad[0]
+        ctx.violation("restart-after-first-write-crash", {"scenario": scen[si], "first_write_cut": k, "first_write_length": n0, "result": {x: r[x] for x in r if "hash" not in x},
+                                                          "n_cases": len(rrbad), "cuts": [x[1] - x[2] for x in rrbad], "how": "tools/c06_driver.py job_rerun"}, True,
+                      "property=C07 crash %d bytes before the end of the FIRST snapshot write: %s, then continuing and appending gives %d readable snapshots instead of %d"
+                      % (n0 - k, "snapshot 0 is exposed and restarted from" if r.get("restarted_from_snapshot0") else "no snapshot is exposed, the history is run again with the same file name",
+                         len(r.get("snap_hashes", [])), len(ref_hash[si])))
+    if leak:
+        si, k, n0, r = leak[0]
+        ctx.violation("failed-append-leaks-descriptor", {"scenario": scen[si], "first_write_cut": k, "fd_growth": r["fd_growth"], "n_cases": len(leak)}, True,
+                      "property=C07 every refused append to a file without a complete first snapshot leaks an open FILE* (%d descriptors after %d saves); "
+                      "when descriptors run out fopen returns NULL and fseek(NULL) crashes the process" % (r["fd_growth"], len(scen[si]["segs"])))
 
     # ---- the append performed ON a crash image (corruption test, repair walk, in-place patch, write): model save_append vs library
     r1res = c06.run_jobs(libdir, [[j] for j in r1_jobs], timeout=120)
